@@ -10,6 +10,8 @@ META = dict(
 
 
 def harnesses(tier):
+    from contracts.coupling import coupling_harnesses
+    hs_c = coupling_harnesses({"C01"}, tier, modes=("forward",))
     from contracts.modules import transform_harness
     from contracts.elementwise import SPECS, FUNCTIONAL
-    return [transform_harness(SPECS[n], "forward", {"C01"}) for n in FUNCTIONAL]
+    return hs_c + [transform_harness(SPECS[n], "forward", {"C01"}) for n in FUNCTIONAL]
